@@ -33,7 +33,7 @@ def gen(rng, code, size='small'):
     k = rng.choice([1, 2]) if size == 'small' else 1
     l = rng.choice([1, 2, 3]) if size == 'small' else 1
     n = rng.choice([1, 2, 3, 5]) if size == 'small' else rng.choice([1, 2])
-    t = rng.choice([1, 2]); b = rng.choice([1, 2]) if size == 'small' else 1
+    t = rng.choice([1, 2, 3]); b = rng.choice([1, 2, 3, 4]) if size == 'small' else 1          # basebit up to 4: base 16 (2*basebit and 2^basebit part ways at 3)
     B = rng.choice([1, 7, 10, 16])
     if code == 1: return lp(rng, rng.choice([n, 500, 630, 0, 1024])), []
     if code == 2: return [n] + lwesample(rng, n), [n]
